@@ -38,6 +38,31 @@ func c15Docs(k int) []docEntry {
 	return makeDocs(vals)
 }
 
+// objectTrees: every tree of objects (keys a,b) and scalar leaves with exactly n nodes — deeper and
+// wider object nesting than the general node bound reaches.
+func objectTrees(n int, memo map[int][]any) []any {
+	if v, ok := memo[n]; ok {
+		return v
+	}
+	var out []any
+	if n == 1 {
+		out = []any{float64(0), map[string]any{}}
+	} else {
+		for _, v := range objectTrees(n-1, memo) { // one member
+			out = append(out, map[string]any{"a": v})
+		}
+		for l := 1; l <= n-2; l++ { // two members
+			for _, x := range objectTrees(l, memo) {
+				for _, y := range objectTrees(n-1-l, memo) {
+					out = append(out, map[string]any{"a": x, "b": y})
+				}
+			}
+		}
+	}
+	memo[n] = out
+	return out
+}
+
 func c15Paths() []Path {
 	var heads []*Expr
 	heads = append(heads, eRoot(sAnyKey()), eRoot(sAnyArray()), eRoot(sAny(0, -1)))
@@ -93,6 +118,16 @@ func runC15(r *Run) {
 		K = 7
 	}
 	docs := c15Docs(K)
+	memo := map[int][]any{}
+	var deep []any
+	for n := K + 1; n <= K+4; n++ {
+		for _, t := range objectTrees(n, memo) {
+			ctr := 0
+			deep = append(deep, relabel(t, &ctr))
+		}
+	}
+	r.Bound("object_only_trees_up_to_nodes", K+4)
+	docs = append(docs, makeDocs(deep)...)
 	paths := c15Paths()
 	r.Bound("max_tree_nodes", K)
 	r.Bound("documents", len(docs))
